@@ -1442,7 +1442,12 @@ def rotor_between_objects_root(X1, X2):
         C = 1 - X21
         if abs(C.value[0]) < 1E-6:
             R = (I5eo * X21)(2)
-            R = (R * biv3dmask)(2).normal()
+            Rm = (R * biv3dmask)(2)
+            if abs(Rm) < 1E-6:
+                # R is parallel to the reference bivector, their product has no
+                # bivector part: take the axis from another reference
+                Rm = (R * e12)(2)
+            R = Rm.normal()
             R2 = rotor_between_objects_root(apply_rotor(X1, R), X2).normal()
             return (R2 * R).normal()
         else:
